@@ -10,6 +10,10 @@ for c in m['checks']:
     for kind in ('Props', 'Drive', 'GenProps'):
         if os.path.exists('lean/MenpoModel/%s/%s.lean' % (kind, p)):
             t.append('MenpoModel.%s.%s' % (kind, p))
+    # further obligation files of the property (GenProps/CxxSomething.lean)
+    import glob
+    for f in sorted(glob.glob('lean/MenpoModel/GenProps/%s?*.lean' % p)):
+        t.append('MenpoModel.GenProps.' + os.path.basename(f)[:-5])
 print(' '.join(t))
 PY
 )
